@@ -210,6 +210,11 @@ def compare_terms(g, e, F, name, out, hyps=(), t0=None):
         smt.STATS["normaliser"] += 1
         out.append(Clause(name, "discharged", "normaliser", secs=time.time() - t0))
         return
+    g2, e2 = smt.simplify_facts(g, F), smt.simplify_facts(e, F)
+    if (g2 is not g or e2 is not e) and T.equal(g2, e2):
+        smt.STATS["normaliser"] += 1
+        out.append(Clause(name, "discharged", "normaliser+facts", secs=time.time() - t0))
+        return
     st, info = smt.prove(T.cmp_cond("==", g, e), F, hyps)
     if st == "proved":
         out.append(Clause(name, "discharged", info["backend"], secs=time.time() - t0))
